@@ -601,6 +601,7 @@ func (i *indexedTableRefIter) Next(rec record) (bool, error) {
 			continue
 		}
 
+		ref.UpdateIndex += i.r.header.MinUpdateIndex
 		if bytes.Compare(ref.Value, i.oid) == 0 || bytes.Compare(ref.TargetValue, i.oid) == 0 {
 			return true, nil
 		}
@@ -612,10 +613,17 @@ func (r *Reader) RefsFor(oid []byte) (*Iterator, error) {
 	if r.offsets[blockTypeObj].Present {
 		return r.refsForIndexed(oid)
 	}
+	return r.refsForLinear(oid)
+}
 
+func (r *Reader) refsForLinear(oid []byte) (*Iterator, error) {
 	it, err := r.start(blockTypeRef, false)
 	if err != nil {
 		return nil, err
+	}
+	if it == nil {
+		// no ref section.
+		return &Iterator{&emptyIterator{}}, nil
 	}
 	return &Iterator{&filteringRefIterator{
 		tab:         r,
@@ -626,11 +634,17 @@ func (r *Reader) RefsFor(oid []byte) (*Iterator, error) {
 }
 
 func (r *Reader) refsForIndexed(oid []byte) (*Iterator, error) {
+	if len(oid) < r.objectIDLen {
+		return &Iterator{&emptyIterator{}}, nil
+	}
 	want := &objRecord{HashPrefix: oid[:r.objectIDLen]}
 
 	it, err := r.seek(want)
 	if err != nil {
 		return nil, err
+	}
+	if it == nil {
+		return &Iterator{&emptyIterator{}}, nil
 	}
 
 	got := objRecord{}
@@ -640,6 +654,11 @@ func (r *Reader) refsForIndexed(oid []byte) (*Iterator, error) {
 	}
 	if !ok || got.key() != want.key() {
 		return &Iterator{&emptyIterator{}}, nil
+	}
+	if len(got.Offsets) == 0 {
+		// the writer dropped the block positions because they
+		// did not fit in a block.
+		return r.refsForLinear(oid)
 	}
 
 	tr := &indexedTableRefIter{
